@@ -26,7 +26,7 @@ fn glide_input() -> BoxedStrategy<f32> {
         6 => -10.0f32..=10.0,
         1 => Just(0.0f32),
         1 => prop_oneof![Just(10.0f32), Just(-10.0f32), Just(1.0f32), Just(-1.0f32)],
-        1 => prop_oneof![Just(1e-20f32), Just(-1e-30f32), Just(1e-40f32), Just(f32::MIN_POSITIVE), Just(-0.0f32)],
+        1 => prop_oneof![2 => prop_oneof![Just(1e-20f32), Just(-1e-30f32), Just(1e-40f32), Just(f32::MIN_POSITIVE), Just(-0.0f32)], 3 => tiny_f32()],
         // the statement quantifies over every input sequence: very large magnitudes of either sign, back to back
         1 => prop_oneof![Just(3e38f32), Just(-3e38f32), Just(f32::MAX), Just(f32::MIN), Just(1e30f32), Just(-1e30f32), Just(1e19f32), Just(-1e19f32)],
     ]
@@ -140,7 +140,7 @@ pub fn replay(engine: &str, case: &Value) -> Result<(), Failure> {
 
 pub fn c13(quick: bool, seed: u64) -> Outcome {
     let mut o = Outcome::new(
-        "proptest schedules: sample rate log-uniform [100 Hz, 48 kHz] + 5..60 ops from {set_time(t) with t from {0, U[0,2/fs], U[0,6/fs], U[0,0.1], U[0,1], U[0,10], 10}, switch-to-fastest (t = u*2/fs), input x from {U[-10,10], 0, +-1, +-10, tiny/subnormal, huge (+-1e19, +-1e30, +-3e38, +-f32::MAX)}, input := current output, bursts of 3..512 set_time calls alternating between two times (with one sample or no sample in between), run n samples (1-8 | 1-3000), run for the settle time}; after every sample: output inside the hull of 0 and the inputs so far; while the input is held: distance to it never grows, no crossing; after max(3*te, 8/fs) s of holding: within 1% of the distance at the start of the hold - all up to the f32 resolution allowance E_n = (1-a)E_{n-1} + 4ulp. non-trivial = schedule with a set_time while the output is still far (> 100 E_n) from the input AND a time <= 4/fs in effect at some point; distinct by hash",
+        "proptest schedules: sample rate log-uniform [100 Hz, 48 kHz] + 5..60 ops from {set_time(t) with t from {0, U[0,2/fs], U[0,6/fs], U[0,0.1], U[0,1], U[0,10], 10}, switch-to-fastest (t = u*2/fs), input x from {U[-10,10], 0, +-1, +-10, tiny/subnormal (every binade down to the smallest subnormal, both signs), huge (+-1e19, +-1e30, +-3e38, +-f32::MAX)}, input := current output, bursts of 3..512 set_time calls alternating between two times (with one sample or no sample in between), run n samples (1-8 | 1-3000), run for the settle time}; after every sample: output inside the hull of 0 and the inputs so far; while the input is held: distance to it never grows, no crossing; after max(3*te, 8/fs) s of holding: within 1% of the distance at the start of the hold - all up to the f32 resolution allowance E_n = (1-a)E_{n-1} + 4ulp. non-trivial = schedule with a set_time while the output is still far (> 100 E_n) from the input AND a time <= 4/fs in effect at some point; distinct by hash",
     );
     o.assumptions.push("times in [0,10] s, finite inputs (mostly in [-10,10], some of huge magnitude); the time in effect after in-band set_time calls is either of the admissible ones (the allowance uses the slowest)".into());
     let (cases, budget) = if quick { (60_000, 150_000u64) } else { (400_000, 3_000_000u64) };
